@@ -67,7 +67,7 @@ int main(int argc, char** argv){
     rng = (seed + 1) * 0x9E3779B97F4A7C15ULL + (u64)i * 0xD1B54A32D192ED03ULL + 1; rnd(); rnd();
     fails = reached = crashed = assumed_out = 0; digest = 0xcbf29ce484222325ULL;
     if (sigsetjmp(jb, 1) == 0) NMV_ENTRY();
-    if (assumed_out) { printf("%ld skip\n", i); continue; }
+    if (assumed_out) continue;
     accepted++;
     printf("%ld %016llx f=%d c=%d r=%d\n", i, (unsigned long long)digest, fails, crashed ? 1 : 0, reached);
   }
